@@ -318,6 +318,8 @@ def assign_iterable(lhs, rhs, other, ctx):
         lhs[rhs] = other
         return vy_sum(lhs, ctx=ctx)
     else:
+        # values are immutable: write into a copy, not into the argument
+        lhs = lhs[::] if type(lhs) is list else deep_copy(lhs)
         lhs[rhs] = other
         return lhs
 
